@@ -212,7 +212,7 @@ _DECOY_KEEP = []
 DECOY_STATS = {'built': 0, 'failed': 0}
 
 
-def warm_decoy(pf, cls, faces):
+def warm_decoy(pf, cls, faces, force=False):
     """Before the grid of a case is built, a SIBLING grid lives through a small model run in the same process: same class, same cell
     counts, same first and last face on every axis - but other interior face positions - with variables, boundary conditions, every
     term builder and a solve. A correct library keeps nothing between objects, so this changes nothing; anything memoised per
@@ -225,7 +225,7 @@ def warm_decoy(pf, cls, faces):
     try:
         fl = [np.asarray(f, dtype=float) for f in faces]
         key = zlib.crc32(b''.join(f.tobytes() for f in fl))
-        if key % 2 == 0 or not any(len(f) > 2 for f in fl):
+        if not force and (key % 2 == 0 or not any(len(f) > 2 for f in fl)):
             return
         rng = np.random.default_rng(key)
         dfaces = []
@@ -259,7 +259,31 @@ def warm_decoy(pf, cls, faces):
             np.sum(m.cellvolume), psi.domainIntegral()
             pf.solvePDE(psi, terms)
             pf.solveExplicitPDE(psi, 1e-6, pf.divergenceTerm(D * pf.gradientTerm(psi)))
-        _DECOY_KEEP[:] = [(m, psi, pos, D, u, terms)]       # the previous sibling dies here (its id() may be reused), this one stays alive
+        keep = [(m, psi, pos, D, u, terms)]
+        dims_r = tuple(reversed(dims))
+        if nd > 1 and dims_r != dims:
+            # ... and a second sibling with the cell counts in reverse order (same number of cells, same matrix order, other shape)
+            with np.errstate(all='ignore'):
+                m2 = getattr(pf, cls)(*dims_r, *([1.0] * nd))
+                BC2 = pf.BoundaryConditions(m2)
+                for k in range(nd):
+                    for side in SIDES[k]:
+                        fc = getattr(BC2, side)
+                        fc.a[:] = 1.0
+                        fc.b[:] = (-1.0 if side == SIDES[k][0] else 1.0) * 0.8
+                        fc.c[:] = 0.3
+                psi2 = pf.CellVariable(m2, rng.normal(0, 1, dims_r), BC2)
+                pos2 = pf.CellVariable(m2, np.exp(rng.normal(0, 1, dims_r)))
+                D2, u2 = pf.FaceVariable(m2, 1.3), pf.FaceVariable(m2, 0.7)
+                t2 = [pf.transientTerm(psi2, 0.1, pos2), -pf.diffusionTerm(D2), pf.convectionUpwindTerm(u2), pf.convectionTerm(u2), pf.linearSourceTerm(pos2), pf.constantSourceTerm(pos2)]
+                pf.convectionTVDupwindRHSTerm(u2, psi2, pf.fluxLimiter('SUPERBEE'))
+                pf.divergenceTerm(D2 * pf.gradientTerm(psi2))
+                pf.linearMean(psi2), pf.harmonicMean(pos2), pf.upwindMean(psi2, u2)
+                np.sum(m2.cellvolume)
+                pf.solvePDE(psi2, t2)
+            keep.append((m2, psi2, pos2, D2, u2, t2))
+            DECOY_STATS['built_reversed'] = DECOY_STATS.get('built_reversed', 0) + 1
+        _DECOY_KEEP[:] = keep       # the previous siblings die here (their id() may be reused), these stay alive
         DECOY_STATS['built'] += 1
     except Exception:
         DECOY_STATS['failed'] += 1
